@@ -677,6 +677,10 @@ func parseModifies(text string, line int) ([]ModItem, error) {
 		return []ModItem{{Kind: "each", Var: Binder{Name: v, Like: like}, Where: where, Fields: fields, Text: text}}, nil
 	}
 	for _, part := range splitTop(text, ',') {
+		if part == "elems(*)" {
+			items = append(items, ModItem{Kind: "allelems", Text: part})
+			continue
+		}
 		if strings.HasPrefix(part, "elems(") && strings.HasSuffix(part, ")") {
 			e, err := parseExprString(part[6 : len(part)-1])
 			if err != nil {
